@@ -35,6 +35,19 @@ Definition trait_header_of (header : string) : option (list string) :=
   | None => None
   end.
 
+(* the signature of an inherent method / free function, by owner (Self type text as in gen_fn_sigs; "fn" for free
+   functions) and name *)
+Definition sig_of (owner fn : string) : option string :=
+  match find (fun r => match r with (_, o, n, _) => String.eqb o owner && String.eqb n fn end) gen_fn_sigs with
+  | Some (_, _, _, sg) => Some sg
+  | None => None
+  end.
+
+(* every inherent method of the crate's types, as (owner, name), in source order: an inherent method added to one
+   of them is a candidate that method-call syntax tries BEFORE the trait methods and the slice's methods *)
+Definition inherent_methods : list (string * string) :=
+  flat_map (fun r => match r with (_, o, n, _) => if String.eqb o "fn" then [] else [(o, n)] end) gen_fn_sigs.
+
 Definition structural_traits : list string :=
   ["Default"; "Clone"; "PartialEq"; "Eq"; "PartialOrd"; "Ord"; "Debug"; "Hash"]%string.
 
